@@ -438,3 +438,106 @@ _REG.contracts["bellows.ezsp.EZSP._command"].native_default = _native_default_re
 def pos(fx, r):
     """position of the record r itself (identity, not equality) in the effects list"""
     return [i for i, q in enumerate(fx) if q is r][0]
+
+
+# ---------------------------------------------------------------------------
+# EZSP.connect / EZSP.initialize (C09 "connecting ... sends the first version query in the legacy frame format"):
+# the state startup_reset is entitled to assume (pre.fresh_connected_object) is established here, and initialize is
+# one of its two call sites -- the precondition is checked at that call
+# ---------------------------------------------------------------------------
+@contract("bellows.uart.connect", props=["C09"])
+def _(c):
+    c.trusted = True  # serial / thread set-up (zigpy.serial, EventLoopThread): outside this property
+    c.effect_name = "uart.connect"
+    c.is_async = True
+    c.returns(T.ext(GATEWAY_PROXY))
+    c.raises("cannot_open", OSError)
+    c.raises("timeout", TimeoutError)
+    c.raises("cancelled", asyncio.CancelledError)
+
+
+@contract("bellows.ezsp.EZSP.connect", props=["C09"])
+def _(c):
+    c.self(EZ_BRINGUP, _gw=T.none, _protocol=T.none, _ezsp_version=T.const(4))
+    c.effect_name = "ezsp.connect"
+    c.arg("use_thread", T.bool)
+    c.raises("cannot_open", OSError)
+    c.raises("timeout", TimeoutError)
+    c.raises("cancelled", asyncio.CancelledError)
+    # the link is opened for this object's device configuration with this object as the receiver of frames
+    c.ensures(
+        "post.link_opened_for_this_object",
+        lambda self, use_thread, fx: [(r[2], r[3]) for r in fx if r[0] == "call" and r[1] == "uart.connect"]
+        == [((self._config, self), {"use_thread": use_thread})],
+        on="any",
+    )
+    # "sends the first version query in the legacy frame format": a legacy (v4) handler wired to the new link is
+    # installed, the assumed version stays 4, the layer is not running yet
+    c.ensures(
+        "post.legacy_handler_on_the_new_link",
+        lambda self, fx: self._gw is [r[2] for r in fx if r[0] == "ret" and r[1] == "uart.connect"][0]
+        and self._protocol is not None and type(self._protocol) is v4.EZSPv4
+        and self._protocol._gw is self._gw and fresh_handler_state(self._protocol)
+        and self._ezsp_version == 4,
+    )
+    c.ensures("post.nothing_installed_on_failure", lambda self: self._protocol is None, on="raise")
+    c.modifies("self._gw", "self._protocol")
+
+
+def _connect_post_call(I, b):
+    """post-state of EZSP.connect at call sites, as established by its own proof (post.legacy_handler_on_the_new_link)"""
+    from pyvc.values import SObj
+
+    so = b["self"]
+    gw = T.ext(GATEWAY_PROXY).fresh(I, "gateway")
+    so.fields["_gw"] = gw
+    so.fields["_protocol"] = SObj(v4.EZSPv4, {"_gw": gw, "_seq": 0, "_awaiting": {}, "tc_policy": 0})
+
+
+_REG.contracts["bellows.ezsp.EZSP.connect"].post_call = _connect_post_call
+
+
+class _ZigpyConfigT:
+    def fresh(self, I, name):
+        import bellows.config as conf
+
+        return {conf.CONF_DEVICE: T.opaque.fresh(I, "device_config"), conf.CONF_USE_THREAD: T.bool.fresh(I, "use_thread")}
+
+
+@contract("bellows.ezsp.EZSP.initialize", props=["C09"])
+def _(c):
+    c.arg("cls", T.const(ezsp.EZSP))
+    c.arg("zigpy_config", _ZigpyConfigT())
+    c.raises("cannot_open", OSError)
+    c.raises("timeout", TimeoutError)
+    c.raises("link", ConnectionResetError)
+    c.raises("not_running", EzspError)
+    c.raises("cancelled", asyncio.CancelledError)
+    c.raises("no_protocol", AttributeError)
+    # bring-up order: connect (legacy handler), then the start-up reset / version negotiation on that very object
+    c.ensures(
+        "post.connect_then_startup_reset",
+        lambda result, fx: [r[1] for r in fx if r[0] == "call" and r[1] in ("ezsp.connect", "bellows.ezsp.EZSP.startup_reset")]
+        == ["ezsp.connect", "bellows.ezsp.EZSP.startup_reset"],
+    )
+    # a bring-up that fails (an error, not a cancellation of the caller) after the link was opened closes it again
+    c.ensures(
+        "post.closed_when_bring_up_fails",
+        lambda raised, fx: implies(
+            isinstance(raised, Exception)
+            and [r for r in fx if r[0] == "call" and r[1] == "bellows.ezsp.EZSP.startup_reset"] != [],
+            len([r for r in fx if r[0] == "call" and r[1] in ("ezsp.close", "bellows.ezsp.EZSP.close")]) == 1,
+        ),
+        on="raise",
+    )
+
+
+# asyncio.Event() as created by EZSP.__init__: the EVENT collaborator, not set
+from pyvc.contracts import constructor as _constructor  # noqa: E402
+
+
+@_constructor(asyncio.Event)
+def _(I, cls, args, kwargs):
+    from pyvc.values import SObj
+
+    return SObj(EVENT, {"flag": False}, tag="event")
